@@ -1,5 +1,6 @@
 (* Properties/C13.v — Torrent files: total parsing, consistent geometry, identity preserved. *)
-From Storrent Require Import Base.Bytes Base.Bencode Model.Wire Model.Torfile Proof.Torfile.
+From Coq Require Import String.
+From Storrent Require Import Base.Bytes Base.Bencode Model.Wire Model.Torfile Proof.Torfile Proof.TorSlice.
 Open Scope N_scope.
 
 (* reading any byte string as a .torrent never crashes: no division by zero, no
@@ -26,3 +27,19 @@ Print Assumptions c13_metadata_geometry.
 Theorem c13_metadata_total : forall info, metadata_complete info <> MPanic.
 Proof. exact metadata_complete_no_panic. Qed.
 Print Assumptions c13_metadata_total.
+
+(* The info-hash is the SHA-1 of the info dictionary exactly as it appears in the input: the bytes
+   kept as Torrent.Info (and hashed) by an accepted torrent file are a slice of the input,
+   input = pre ++ hdr ++ raw ++ post, where hdr is a bencoded string header that parses to the key
+   "info" and raw is exactly one complete bencoded value — whatever the key order, extra keys, or
+   the encoding of the dictionary inside (nothing is re-encoded).
+   (That the hash stored is SHA-1 of these bytes, and that WriteTorrent emits them again, is checked
+   on the implementation by the harness on every run.) *)
+Theorem c13_info_is_slice : forall bs raw g cd tr ul hs,
+  read_torrent bs = ROk raw g cd tr ul hs ->
+  exists pre hdr post key v k1 k2,
+    bs = pre ++ hdr ++ raw ++ post /\
+    parse_bstr (hdr ++ raw ++ post) = BOk key (raw ++ post) k1 /\ key = ascii_bytes "info" /\
+    bparse (S (length (raw ++ post))) (raw ++ post) = BOk v post k2.
+Proof. exact info_is_slice. Qed.
+Print Assumptions c13_info_is_slice.
